@@ -184,6 +184,14 @@ def _voxel_specs(tier):
     if tier == "thorough":
         out.append({"id": "voxel:sphere-unit:k=64", "kind": "voxel",
                     "spec": prim[0][1], "k": 64})
+    # grids of more than 2**16 and 2**17 voxels (one query of that many
+    # points), also in the quick tier
+    for name, spec in (prim[0], prim[-2]):
+        for k in (24, 30):
+            out.append({"id": "voxel:%s:k=%d" % (name, k), "kind": "voxel",
+                        "spec": spec, "k": k})
+    out.append({"id": "voxel:csg:Difference:A,B:k=24", "kind": "voxelcsg",
+                "op": "Difference", "a": "A", "b": "B", "k": 24})
     for op in CSG_OPS:
         for a, b in itertools.product("ABCD", repeat=2):
             for k in ([8] if tier == "quick" else [8, 16]):
@@ -824,6 +832,22 @@ def _run_voxel(case, ck):
             (case["id"], vox.shape, dom.shape))
     cell = h ** 3
     acc = []
+    if "rotation" not in spec and vox.ndim == 3 and vox.shape == dom.shape:
+        # every voxel against the analytic inequality at its own position
+        # (the grid starts at the lower bounds and has pitch h)
+        grid = np.mgrid[[slice(b[0], b[1], h) for b in obj.bounds]]
+        pts = np.stack([g.ravel() for g in grid], -1)
+        if pts.shape[0] == dom.size:
+            want, decided = _oracle(model, pts)
+            bad = np.flatnonzero((np.asarray(dom).ravel() != want) & decided)
+            ck.true("voxel-domains", bad.size == 0, "%s: %d of %d voxels "
+                    "are in another domain than the analytic inequality "
+                    "says, first voxel %r at %r: %r, analytic %r" %
+                    (case["id"], bad.size, dom.size,
+                     int(bad[0]) if bad.size else None,
+                     pts[bad[0]].tolist() if bad.size else None,
+                     int(np.asarray(dom).ravel()[bad[0]]) if bad.size
+                     else None, int(want[bad[0]]) if bad.size else None))
     prev_v, prev_s = 0.0, 0.0
     for i, (ax, n) in enumerate(zip(model["surf"], model["n"])):
         v_out = 4 / 3 * math.pi * ax[0] * ax[1] * ax[2]
